@@ -1,4 +1,9 @@
 import EaModel.Tasks
+import EaModel.Lemmas.StartsOnce
+import EaModel.Lemmas.KindFrame
+import EaModel.Lemmas.SubmitOrder
+import EaModel.Lemmas.SeqProgress
+import EaModel.Lemmas.QueueBound
 /-!
 # C11 — sequential task managers: one at a time, in order, nothing lost
 
@@ -145,9 +150,9 @@ theorem SeqInv_of_frame {s s' : TSt} (h : SeqInv s) (h1 : s'.tasks = s.tasks) (h
     rw [h1] at ht; rw [task_same h1] at hd ⊢; exact h.deliv t ht hd
 
 /-- `create_task` of every sequential manager keeps the invariant -/
-theorem submit_inv (s : TSt) (c k : Nat) (h : SeqInv s) : SeqInv (submit s c k) := by
+theorem submitCore_inv (s : TSt) (c k : Nat) (h : SeqInv s) : SeqInv (submitCore s c k) := by
   have hs := h.seq
-  unfold submit
+  unfold submitCore
   split
   · exact seqTaskStart_inv _ (SeqInv_of_frame h rfl rfl rfl rfl)
   · split
@@ -166,6 +171,9 @@ theorem submit_inv (s : TSt) (c k : Nat) (h : SeqInv s) : SeqInv (submit s c k) 
   · next hk => rw [hk] at hs; exact hs.elim
   · next hk => rw [hk] at hs; exact hs.elim
 
+
+theorem submit_inv (s : TSt) (c k : Nat) (h : SeqInv s) : SeqInv (submit s c k) :=
+  submitCore_inv _ c k (SeqInv_of_frame h rfl rfl rfl rfl)
 
 theorem submitAll_inv : ∀ (subs : List (Nat × Nat)) (s : TSt), SeqInv s → SeqInv (submitAll s subs)
   | [], s, h => h
@@ -322,8 +330,8 @@ theorem seqTaskStart_grows (s : TSt) : Grows s (seqTaskStart s) := by
 theorem grows_start {s s1 : TSt} (h : s1.tasks = s.tasks) : Grows s (seqTaskStart s1) :=
   (Grows.of_tasks_eq h).trans (seqTaskStart_grows s1)
 
-theorem submit_grows (s : TSt) (c k : Nat) (hs : IsSeq s.kind) : Grows s (submit s c k) := by
-  unfold submit
+theorem submitCore_grows (s : TSt) (c k : Nat) (hs : IsSeq s.kind) : Grows s (submitCore s c k) := by
+  unfold submitCore
   split
   · exact grows_start rfl
   · split
@@ -335,6 +343,9 @@ theorem submit_grows (s : TSt) (c k : Nat) (hs : IsSeq s.kind) : Grows s (submit
   · split <;> exact grows_start rfl
   · next hk => rw [hk] at hs; exact hs.elim
   · next hk => rw [hk] at hs; exact hs.elim
+
+theorem submit_grows (s : TSt) (c k : Nat) (hs : IsSeq s.kind) : Grows s (submit s c k) :=
+  (Grows.of_tasks_eq (s := s) (s' := s.emit (.submitted c)) rfl).trans (submitCore_grows _ c k hs)
 
 theorem submitAll_grows : ∀ (subs : List (Nat × Nat)) (s : TSt), SeqInv s → Grows s (submitAll s subs)
   | [], s, _ => Grows.refl s
@@ -570,9 +581,9 @@ theorem fifo (s : TSt) (done : Option Nat) (c k : Nat) (rest : List (Nat × Nat)
   exact ⟨rfl, by show (clearCur s done).tasks ++ _ = _; rw [(clearCur_frame s done).1]⟩
 
 /-- de-duplication: after a submission at most one waiting coroutine carries the submitted key — the new one -/
-theorem dedup_newest (s : TSt) (c k : Nat) (hk : s.kind = .dedup) (hcur : s.cur ≠ none) :
-    (submit s c k).queue = s.queue.filter (·.2 ≠ k) ++ [(c, k)] := by
-  unfold submit
+theorem dedup_newest_core (s : TSt) (c k : Nat) (hk : s.kind = .dedup) (hcur : s.cur ≠ none) :
+    (submitCore s c k).queue = s.queue.filter (·.2 ≠ k) ++ [(c, k)] := by
+  unfold submitCore
   rw [hk]
   simp only []
   obtain ⟨t, ht⟩ : ∃ t, s.cur = some t := by
@@ -592,11 +603,121 @@ theorem dedup_newest (s : TSt) (c k : Nat) (hk : s.kind = .dedup) (hcur : s.cur 
     show s.queue ++ [(c, k)] = _
     rw [List.filter_eq_self.2 (by intro x hx; simpa using this x hx)]
 
+theorem dedup_newest (s : TSt) (c k : Nat) (hk : s.kind = .dedup) (hcur : s.cur ≠ none) :
+    (submit s c k).queue = s.queue.filter (·.2 ≠ k) ++ [(c, k)] :=
+  dedup_newest_core (s.emit (.submitted c)) c k hk hcur
+
+/-! ### the bounded queue and its victims -/
+
+/-- the limiting manager (bound ≥ 1) never holds more than `maxQ` waiting coroutines, in any reachable state -/
+theorem queue_bounded (maxQ : Nat) (pol : SeqPolicy) (hm : 1 ≤ maxQ) (ops : List TOp) :
+    (runT { kind := .limitingSeq maxQ pol } ops).queue.length ≤ maxQ :=
+  (qbound_reachable maxQ pol hm ops).2
+
+/-- bound reached, policy **skip**: the NEW coroutine is closed unstarted, nothing else changes -/
+theorem full_skip_drops_new (s : TSt) (maxQ c key : Nat) (hk : s.kind = .limitingSeq maxQ .skip)
+    (hfull : s.queue.length ≥ maxQ) : submit s c key = (s.emit (.submitted c)).emit (.closed c) := by
+  unfold submit submitCore
+  have hk' : (s.emit (.submitted c)).kind = .limitingSeq maxQ .skip := hk
+  have hf' : (s.emit (.submitted c)).queue.length ≥ maxQ := hfull
+  simp only [hk']
+  rw [if_pos hf']
+
+/-- bound reached, policy **skip_first**: the OLDEST waiting coroutine is closed unstarted, the new one is appended -/
+theorem full_skip_first_drops_oldest (s : TSt) (maxQ c key c0 k0 : Nat) (rest : List (Nat × Nat))
+    (hk : s.kind = .limitingSeq maxQ .skipFirst) (hfull : s.queue.length ≥ maxQ) (hq : s.queue = (c0, k0) :: rest) :
+    submit s c key =
+      seqTaskStart { ((s.emit (.submitted c)).emit (.closed c0)) with queue := rest ++ [(c, key)] } := by
+  unfold submit submitCore
+  have hk' : (s.emit (.submitted c)).kind = .limitingSeq maxQ .skipFirst := hk
+  have hf' : (s.emit (.submitted c)).queue.length ≥ maxQ := hfull
+  have hq' : (s.emit (.submitted c)).queue = (c0, k0) :: rest := hq
+  simp only [hk']
+  rw [if_pos hf']
+  simp only [hq']
+
+/-- bound reached, policy **skip_last**: the NEWEST waiting coroutine is closed unstarted, the new one is appended -/
+theorem full_skip_last_drops_newest (s : TSt) (maxQ c key c0 k0 : Nat)
+    (hk : s.kind = .limitingSeq maxQ .skipLast) (hfull : s.queue.length ≥ maxQ) (hq : s.queue.getLast? = some (c0, k0)) :
+    submit s c key =
+      seqTaskStart { ((s.emit (.submitted c)).emit (.closed c0)) with queue := s.queue.dropLast ++ [(c, key)] } := by
+  unfold submit submitCore
+  have hk' : (s.emit (.submitted c)).kind = .limitingSeq maxQ .skipLast := hk
+  have hf' : (s.emit (.submitted c)).queue.length ≥ maxQ := hfull
+  have hq' : (s.emit (.submitted c)).queue.getLast? = some (c0, k0) := hq
+  simp only [hk']
+  rw [if_pos hf']
+  simp only [hq']
+  rfl
+
+/-! ### conservation (`Lemmas/Conserve.lean`, `Lemmas/StartsOnce.lean`) -/
+
+/-- **none is lost and none runs twice**: in every state a sequential manager (any of the three) can reach, a
+coroutine that was handed to `create_task` exactly once is in exactly one place — waiting in the queue (once), or
+closed unstarted by the manager (once), or it has exactly one task — and its body was entered at most once -/
+theorem nothing_lost_nothing_twice (k : MgrKind) (ops : List TOp) (c : Nat)
+    (hs : cSub c (runT { kind := k } ops).log = 1) :
+    let s := runT { kind := k } ops
+    ((cQueue c s.queue = 1 ∧ cTasks c s.tasks = 0 ∧ cClosed c s.log = 0) ∨
+     (cQueue c s.queue = 0 ∧ cTasks c s.tasks = 1 ∧ cClosed c s.log = 0) ∨
+     (cQueue c s.queue = 0 ∧ cTasks c s.tasks = 0 ∧ cClosed c s.log = 1)) ∧ cEnter c s.log ≤ 1 :=
+  submitted_once k ops c hs
+
+/-- **in submission order**: in every state a sequential manager can reach, the coroutines that got a task (in the
+order in which their tasks were created) followed by the coroutines still waiting (in queue order) are a subsequence
+of the coroutines in the order in which they were handed to `create_task`: no coroutine is started before one that
+was submitted earlier and is still to be started; whatever is missing from the subsequence was closed unstarted -/
+theorem started_in_submission_order (k : MgrKind) (hk : IsSeq k) (ops : List TOp) :
+    let s := runT { kind := k } ops
+    (s.tasks.map (·.coro) ++ s.queue.map (·.1)).Sublist (subSeq s.log) :=
+  (seq_order_reachable k (by cases k <;> first | trivial | exact hk.elim) ops).ord
+
+/-- **the next one always starts**: in every reachable state a coroutine waits in the queue only while `self.task`
+is set to a task whose done callback has not run; and when the loop is idle (nothing scheduled) that task has not
+finished. So completion, failure or cancellation of the running task — each of which schedules its done callback —
+always lets the next coroutine start: a sequential manager is never idle with work waiting -/
+theorem waiting_only_behind_a_running_task (k : MgrKind) (hk : IsSeq k) (ops : List TOp) :
+    let s := runT { kind := k } ops
+    s.queue ≠ [] → ∃ t, s.cur = some t ∧ t < s.tasks.length ∧ (s.task t).delivered = false ∧
+      (s.ready = [] → (s.task t).status ≠ .done) := by
+  intro s hq
+  have hp := prog_reachable k (by cases k <;> first | trivial | exact hk.elim) ops
+  have hi := reachable_inv k hk ops
+  have hc := hp.wait hq
+  obtain ⟨t, ht⟩ : ∃ t, s.cur = some t := by
+    cases h : s.cur with
+    | none => exact absurd h hc
+    | some t => exact ⟨t, rfl⟩
+  obtain ⟨hlt, hd⟩ := hp.live t ht
+  refine ⟨t, ht, hlt, hd, ?_⟩
+  intro hr hdone
+  have := hi.pend t hlt hdone hd
+  rw [hr] at this
+  simp [doneCbs] at this
+
+/-- the general balance, for any number of submissions of `c`: calls = waiting + tasks + closed by the manager -/
+theorem submissions_accounted (k : MgrKind) (ops : List TOp) (c : Nat) :
+    let s := runT { kind := k } ops
+    cSub c s.log = cQueue c s.queue + cTasks c s.tasks + cClosed c s.log :=
+  (cons_reachable k ops).eq c
+
+/-- de-duplication: in every reachable state the waiting coroutines carry pairwise different keys -/
+theorem dedup_keys_unique (ops : List TOp) : ((runT { kind := .dedup } ops).queue.map (·.2)).Nodup :=
+  (cons_reachable .dedup ops).keys (kind_run ops _)
+
 -- non-vacuity (executable checks): three submissions run strictly one after the other, in order
-#guard ((runT { kind := .sequential } [.submit 1 0, .submit 2 0, .submit 3 0, .complete 0 false {}, .complete 1 false {}]).log.reverse
+#guard (observable (runT { kind := .sequential } [.submit 1 0, .submit 2 0, .submit 3 0, .complete 0 false {}, .complete 1 false {}]).log
   == [.enter 1, .exit 1, .enter 2, .exit 2, .enter 3])
 -- the window: the finishing task wakes a listener that submits two coroutines; they still run one after the other
-#guard ((runT { kind := .sequential } [.submit 1 0, .complete 0 false { listener := [(2, 0), (3, 0)] }, .complete 1 false {}]).log.reverse
+#guard (observable (runT { kind := .sequential } [.submit 1 0, .complete 0 false { listener := [(2, 0), (3, 0)] }, .complete 1 false {}]).log
   == [.enter 1, .exit 1, .enter 2, .exit 2, .enter 3])
+
+-- the hypothesis of `nothing_lost_nothing_twice` is met: coroutine 2 was submitted once, waits; bound 1 + skip_first
+-- closes a waiting coroutine, which is then in the third place
+#guard subSeq (runT { kind := .limitingSeq 1 .skipFirst } [.submit 1 0, .submit 2 0, .submit 3 0]).log == [1, 2, 3]
+#guard startSeq (runT { kind := .limitingSeq 1 .skipFirst } [.submit 1 0, .submit 2 0, .submit 3 0]) == [1, 3]
+#guard cSub 2 (runT { kind := .sequential } [.submit 1 0, .submit 2 0]).log == 1
+#guard cQueue 2 (runT { kind := .sequential } [.submit 1 0, .submit 2 0]).queue == 1
+#guard cClosed 2 (runT { kind := .limitingSeq 1 .skipFirst } [.submit 1 0, .submit 2 0, .submit 3 0]).log == 1
 
 end Ea.C11
